@@ -54,6 +54,7 @@ def _regressions():
     add = lambda *es: {'op': 'add_many', 'batch': list(es)}
     ci = {'op': 'check_in', 'u': 3, 'st': 'done', 'inc': True, 'hr': True, 'fn': 8, 'code': 200}
     cco = {'op': 'convert_check_out'}
+    co = lambda st, lv=-1: {'op': 'check_out', 'st': st, 'lv': lv}
     return [
         # ItemSession.add_url(url) with its default URLProperties(): no parent_url / root_url in the whole batch
         [add(dict(plain, hp=True))],
@@ -65,6 +66,15 @@ def _regressions():
         # remove_many leaves the queued_files row behind; the row id is reused by the next URL added
         [add(dict(plain, u=3)), ci, {'op': 'remove_many', 'urls': [3]}, cco],
         [add(dict(plain, u=3)), ci, {'op': 'remove_many', 'urls': [3]}, add(dict(plain, u=5)), cco],
+        # a URL is removed while checked out, another one takes its place, it is added again and only then checked in
+        [add(dict(plain, u=2)), co('todo'), {'op': 'remove_many', 'urls': [2]}, add(dict(plain, u=3)), add(dict(plain, u=2)),
+         dict(ci, u=2), {'op': 'get_all'}],
+        [add(dict(plain, u=2), dict(plain, u=5)), co('todo'), co('todo'), {'op': 'remove_many', 'urls': [2, 5]},
+         add(dict(plain, u=3)), add(dict(plain, u=5)), add(dict(plain, u=2)), dict(ci, u=5), dict(ci, u=2, st='error'),
+         {'op': 'get_all'}, co('todo'), co('error')],
+        # check-out with a depth bound that finds nothing, then without one / with a larger one
+        [add(dict(plain, u=2, hp=True, lv=2)), co('todo', 1), co('todo', 2), {'op': 'release'}, co('todo', 0), co('todo')],
+        [add(dict(plain, u=2, hp=True, lv=3), dict(plain, u=3, hp=True, lv=1)), co('todo', 0), co('todo', 1), co('todo', 2), co('todo', 3)],
     ]
 
 
